@@ -95,7 +95,11 @@ def _mask_stairs(self, other, inverse):
     def is_full_inverse_mask(initial_value):
         return initial_value == 0 or np.isnan(initial_value)
 
-    full_mask_comparator = is_full_inverse_mask if inverse else float(0).__ne__
+    def is_full_mask(initial_value):
+        # not float(0).__ne__: that returns NotImplemented (truthy) for numpy integers
+        return initial_value != 0
+
+    full_mask_comparator = is_full_inverse_mask if inverse else is_full_mask
     if other._data is None:
         if full_mask_comparator(other.initial_value):
             return sc.Stairs(initial_value=np.nan, closed=self.closed)
